@@ -132,6 +132,8 @@ G("g05", O("A", C(7)), [("A", "c", (0, False, None, "", "x", [], {}))], [{"A": (
   "every falsy JSON value under a defaulted option")
 G("g06", O("A", DS("dflt", [O("B")])), [("A", "t", "R"), ("R", "i"), ("B", "i")], [{"B": 1}, {"A": ("t",), "R": 2, "B": 1}],
   ["opt", "templ", "ds"], "dataset default of an option whose present value may reference a missing key")
+G("g07", ("optdom", "A", (0, 9), DS("dd", [O("B")], kind="sum")), [("A", "i"), ("B", "i")], [{"B": 3}, {"A": 4, "B": 3}],
+  ["opt", "domain", "ds"], "Option with a domain whose default is a dataset (validate must not run it)")
 # --- datasets -------------------------------------------------------------------------------------------------
 G("g10", DS("d1", [O("A")]), [("A", "i"), ("U", "i")], [{"A": 3}, {"A": 3, "U": 1}], ["ds"])
 G("g11", DS("d1", [O("A"), O("B", C(1))]), [("A", "i"), ("B", "i")], [{"A": 3}, {"A": 3, "B": 1}], ["ds"],
@@ -148,6 +150,10 @@ G("g15", DS("out", [DS("inn", [O("A"), O("B", C(2))], options={"A": 1}), O("A")]
 G("g16", DS("d1", [O("A")], dispatch="D", overloads={1: O("X"), 2: DS("impl2", [O("Y")])}, callback=True, effects=1),
   [("A", "i"), ("D", "i"), ("X", "i"), ("Y", "i")], [{"D": 2, "Y": 3}, {"A": 1}], ["ds", "overload"],
   "dispatch + overloads + callback + effect")
+G("g19", DS("d1", [O("A")], effects=1), [("A", "i")], [{"A": 1}, {"A": 2}], ["ds"], "one cached dataset with an effect")
+G("g08", DS("d1", [O("A")], effect_opt="AUDIT.SINK", cache="no"), [("A", "i"), ("AUDIT.SINK", "i"), ("LABREA.EFFECTS.DISABLED", "b")],
+  [{"A": 1, "AUDIT.SINK": 2}, {"A": 1, "LABREA.EFFECTS.DISABLED": True}], ["ds", "effopt"],
+  "an effect that needs its own option, and the option switch that disables effects")
 G("g17", DS("d1", [], dispatch="D", overloads={1: O("X"), 2: DS("impl2", [O("Y")])}, abstract=True),
   [("D", "i"), ("X", "i"), ("Y", "i")], [{"D": 1, "X": 3}, {"D": 2, "Y": 1}], ["ds", "overload", "abstract"])
 G("g18", DS("d1", [O("A")], dispatch=DS("disp", [O("M"), O("N", C(0))], kind="sum"), overloads={0: O("X"), 1: DS("i1", [O("Y")])}),
